@@ -62,9 +62,13 @@ Inductive iexpr :=
 | IBin (o : binop) (lt rt : ty) (l r : iexpr)          (* BinOp with the operands' types *)
 | ICast (e : iexpr).                                    (* the `(step) as i64` of emit_range_call *)
 
-Definition istmt := gstmt iexpr.
-Definition iblock := gblock iexpr.
-Definition iels := gels iexpr.
+Inductive icexpr :=
+| IPure (e : iexpr)
+| ICallU (f : ident) (args : list iexpr).          (* arguments in EMITTED (declaration) order *)
+
+Definition istmt := gstmt iexpr icexpr.
+Definition iblock := gblock iexpr icexpr.
+Definition iels := gels iexpr icexpr.
 
 (* lower_expr: the Paren arm returns the lowered content *)
 Fixpoint lower_expr (sc : scopes) (e : expr) : iexpr :=
@@ -75,6 +79,37 @@ Fixpoint lower_expr (sc : scopes) (e : expr) : iexpr :=
   | EParen e1 => lower_expr sc e1
   | EUn o e1 => IUn o (lower_expr sc e1)
   | EBin o l r => IBin o (cty sc l) (cty sc r) (lower_expr sc l) (lower_expr sc r)
+  end.
+
+(* emit_call_expr: with the callee's signature from the function registry, keyword arguments are put
+   into declaration order ([select] is that loop); without it (unknown callee, arity mismatch) the
+   arguments stay in written order *)
+Definition lower_c (P : prog) (sc : scopes) (c : cexpr) : icexpr :=
+  match c with
+  | CPure e => IPure (lower_expr sc e)
+  | CCall f pos kw =>
+      let written := map (lower_expr sc) (pos ++ map snd kw) in
+      match find_fn f P with
+      | Some d =>
+          match select (fparams d) (length pos) O (map fst kw) with
+          | Some sel => match pick written sel with
+                        | Some l => ICallU f l
+                        | None => ICallU f written
+                        end
+          | None => ICallU f written
+          end
+      | None => ICallU f written
+      end
+  end.
+
+(* the type the checker records for a call-level expression *)
+Definition cty_c (P : prog) (sc : scopes) (c : cexpr) : ty :=
+  match c with
+  | CPure e => cty sc e
+  | CCall f _ _ => match find_fn f P with
+                   | Some d => if fret d then TyInt else TyUnk
+                   | None => TyUnk
+                   end
   end.
 
 Inductive lres (A : Type) := LOk (a : A) | LErr.     (* LErr: "Cannot reassign immutable variable" *)
@@ -88,12 +123,12 @@ Definition lower_rargs (sc : scopes) (r : rargs) : iexpr * iexpr * iexpr :=
   end.
 
 (* lower_statement; [mv] is AstLowering::mutable_vars (keyed by NAME, only ever grows) *)
-Fixpoint lower_stmt (sc : scopes) (mv : list ident) (s : stmt) {struct s}
+Fixpoint lower_stmt (P : prog) (sc : scopes) (mv : list ident) (s : stmt) {struct s}
   : lres (istmt * scopes * list ident) :=
   match s with
-  | SAssign k x ann e =>
-      let v := lower_expr sc e in
-      let t := match ann with Some t => t | None => cty sc e end in
+  | SAssign k x ann c =>
+      let v := lower_c P sc c in
+      let t := match ann with Some t => t | None => cty_c P sc c end in
       match k with
       | BInferred =>
           if sexists x sc then
@@ -103,61 +138,63 @@ Fixpoint lower_stmt (sc : scopes) (mv : list ident) (s : stmt) {struct s}
       | BLet => LOk (GLet x false v, sinsert x t sc, mv)
       end
   | SCompound o x e =>
-      LOk (GAssign x (IBin (binop_of_cop o) (var_ty x sc) (cty sc e) (IVar x) (lower_expr sc e)), sc, mv)
+      LOk (GAssign x (IPure (IBin (binop_of_cop o) (var_ty x sc) (cty sc e) (IVar x) (lower_expr sc e))), sc, mv)
   | SIf c th el =>
       (* the else branch and the elif chain are lowered BEFORE the condition and the then branch *)
-      match lower_els sc mv el with
+      match lower_els P sc mv el with
       | LOk (el', mv1) =>
-          match lower_block ([] :: sc) mv1 th with
+          match lower_block P ([] :: sc) mv1 th with
           | LOk (th', _, mv2) => LOk (GIf (lower_expr sc c) th' el', sc, mv2)
           | LErr => LErr
           end
       | LErr => LErr
       end
   | SWhile c b =>
-      match lower_block ([] :: sc) mv b with
+      match lower_block P ([] :: sc) mv b with
       | LOk (b', _, mv1) => LOk (GWhile (lower_expr ([] :: sc) c) b', sc, mv1)
       | LErr => LErr
       end
   | SFor x r b =>
       let '(a, z, st) := lower_rargs sc r in
-      match lower_block ([(x, TyInt)] :: sc) mv b with
+      match lower_block P ([(x, TyInt)] :: sc) mv b with
       | LOk (b', _, mv1) => LOk (GFor x a z st b', sc, mv1)
       | LErr => LErr
       end
-  | SPrint e => LOk (GPrint (lower_expr sc e), sc, mv)
+  | SPrint c => LOk (GPrint (lower_c P sc c), sc, mv)
+  | SExpr c => LOk (GExpr (lower_c P sc c), sc, mv)
+  | SReturn oc => LOk (GReturn (match oc with Some c => Some (lower_c P sc c) | None => None end), sc, mv)
   | SPass => LOk (GUnit, sc, mv)
   | SBreak => LOk (GBreak, sc, mv)
   | SContinue => LOk (GContinue, sc, mv)
   end
-with lower_block (sc : scopes) (mv : list ident) (b : block) {struct b}
+with lower_block (P : prog) (sc : scopes) (mv : list ident) (b : block) {struct b}
   : lres (iblock * scopes * list ident) :=
   match b with
   | BNil => LOk (GNil, sc, mv)
   | BCons s r =>
-      match lower_stmt sc mv s with
+      match lower_stmt P sc mv s with
       | LOk (s', sc1, mv1) =>
-          match lower_block sc1 mv1 r with
+          match lower_block P sc1 mv1 r with
           | LOk (r', sc2, mv2) => LOk (GCons s' r', sc2, mv2)
           | LErr => LErr
           end
       | LErr => LErr
       end
   end
-with lower_els (sc : scopes) (mv : list ident) (el : els) {struct el}
+with lower_els (P : prog) (sc : scopes) (mv : list ident) (el : els) {struct el}
   : lres (iels * list ident) :=
   match el with
   | ENone => LOk (GNoElse, mv)
   | EElse b =>
-      match lower_block ([] :: sc) mv b with
+      match lower_block P ([] :: sc) mv b with
       | LOk (b', _, mv1) => LOk (GElse b', mv1)
       | LErr => LErr
       end
   | EElif c b rest =>
       (* "Build elif chain from end to start": later branches first *)
-      match lower_els sc mv rest with
+      match lower_els P sc mv rest with
       | LOk (rest', mv1) =>
-          match lower_block ([] :: sc) mv1 b with
+          match lower_block P ([] :: sc) mv1 b with
           | LOk (b', _, mv2) => LOk (GElse (GCons (GIf (lower_expr sc c) b' rest') GNil), mv2)
           | LErr => LErr
           end
@@ -165,13 +202,26 @@ with lower_els (sc : scopes) (mv : list ident) (el : els) {struct el}
       end
   end.
 
+
 Definition init_scopes (ps : list ident) : scopes := [map (fun p => (p, TyInt)) ps].
 
-Definition lower_fn (c : fcase) : lres iblock :=
-  match lower_block (init_scopes (params c)) [] (body c) with
-  | LOk (b, _, _) => LOk b
-  | LErr => LErr
+Record ifn := { iname : ident; iparams : list ident; iret : bool; ibody : iblock }.
+
+(* lower_program: functions in declaration order; mutable_vars is ONE map for the whole program *)
+Fixpoint lower_fns (P : prog) (mv : list ident) (l : list fdef) : lres (list ifn) :=
+  match l with
+  | [] => LOk []
+  | d :: r =>
+      match lower_block P (init_scopes (fparams d)) mv (fbody d) with
+      | LOk (b, _, mv1) =>
+          match lower_fns P mv1 r with
+          | LOk rest => LOk ({| iname := fname d; iparams := fparams d; iret := fret d; ibody := b |} :: rest)
+          | LErr => LErr
+          end
+      | LErr => LErr
+      end
   end.
+Definition lower_prog (P : prog) : lres (list ifn) := lower_fns P [] P.
 
 (* ---------------------------------------------------------------- emission *)
 
@@ -205,13 +255,26 @@ Fixpoint emit_expr (e : iexpr) : list tt :=
   | ICast e1 => [G Paren (emit_expr e1); T TAs; T TI64]
   end.
 
+Fixpoint emit_args (l : list iexpr) : list tt :=
+  match l with
+  | [] => []
+  | [e] => emit_expr e
+  | e :: r => emit_expr e ++ T TComma :: emit_args r
+  end.
+
+Definition emit_c (c : icexpr) : list tt :=
+  match c with
+  | IPure e => emit_expr e
+  | ICallU f l => [T (TFn f); G Paren (emit_args l)]
+  end.
+
 Definition is_true_lit (e : iexpr) : bool := match e with IBool true => true | _ => false end.
 
 Fixpoint emit_stmt (s : istmt) : list tt :=
   match s with
   | GLet x m e =>
-      T (TKw KLet) :: (if m then [T (TKw KMut)] else []) ++ T (TId x) :: T TAssign :: emit_expr e ++ [T TSemi]
-  | GAssign x e => T (TId x) :: T TAssign :: emit_expr e ++ [T TSemi]
+      T (TKw KLet) :: (if m then [T (TKw KMut)] else []) ++ T (TId x) :: T TAssign :: emit_c e ++ [T TSemi]
+  | GAssign x e => T (TId x) :: T TAssign :: emit_c e ++ [T TSemi]
   | GIf c th el =>
       T (TKw KIf) :: emit_expr c ++ G Brace (emit_block th) ::
       match el with GNoElse => [] | GElse b => [T (TKw KElse); G Brace (emit_block b)] end
@@ -223,7 +286,10 @@ Fixpoint emit_stmt (s : istmt) : list tt :=
       [T (TKw KFor); T (TId x); T (TKw KIn); T TRange;
        G Paren (emit_expr a ++ T TComma :: emit_expr z ++ T TComma :: emit_expr s);
        G Brace (emit_block b)]
-  | GPrint e => [T TPrintln; T TBang; G Paren (T TFmt :: T TComma :: emit_expr e); T TSemi]
+  | GPrint e => [T TPrintln; T TBang; G Paren (T TFmt :: T TComma :: emit_c e); T TSemi]
+  | GExpr e => emit_c e ++ [T TSemi]
+  | GReturn None => [T (TKw KReturn); T TSemi]
+  | GReturn (Some e) => T (TKw KReturn) :: emit_c e ++ [T TSemi]
   | GUnit => [G Paren []; T TSemi]
   | GBreak => [T (TKw KBreak); T TSemi]
   | GContinue => [T (TKw KContinue); T TSemi]
@@ -251,16 +317,24 @@ Fixpoint tree_of (e : iexpr) : rexpr :=
   | ICast e1 => RCast (tree_of e1)
   end.
 
+Definition tree_of_c (c : icexpr) : rcexpr :=
+  match c with
+  | IPure e => RPure (tree_of e)
+  | ICallU f l => RUCall f (map tree_of l)
+  end.
+
 Fixpoint tree_of_stmt (s : istmt) : rstmt :=
   match s with
-  | GLet x m e => GLet x m (tree_of e)
-  | GAssign x e => GAssign x (tree_of e)
+  | GLet x m e => GLet x m (tree_of_c e)
+  | GAssign x e => GAssign x (tree_of_c e)
   | GIf c th el => GIf (tree_of c) (tree_of_block th)
                        (match el with GNoElse => GNoElse | GElse b => GElse (tree_of_block b) end)
   | GWhile c b => if is_true_lit c then GLoop (tree_of_block b) else GWhile (tree_of c) (tree_of_block b)
   | GLoop b => GLoop (tree_of_block b)
   | GFor x a z s b => GFor x (tree_of a) (tree_of z) (tree_of s) (tree_of_block b)
-  | GPrint e => GPrint (tree_of e)
+  | GPrint e => GPrint (tree_of_c e)
+  | GExpr e => GExpr (tree_of_c e)
+  | GReturn oe => GReturn (match oe with Some e => Some (tree_of_c e) | None => None end)
   | GUnit => GUnit
   | GBreak => GBreak
   | GContinue => GContinue
@@ -281,9 +355,13 @@ Definition regroups (e : iexpr) : bool :=
   | None => true
   end.
 
+Definition regroups_c (c : icexpr) : bool :=
+  match c with IPure e => regroups e | ICallU _ l => existsb regroups l end.
+
 Fixpoint regroups_stmt (s : istmt) : bool :=
   match s with
-  | GLet _ _ e | GAssign _ e | GPrint e => regroups e
+  | GLet _ _ e | GAssign _ e | GPrint e | GExpr e => regroups_c e
+  | GReturn oe => match oe with Some e => regroups_c e | None => false end
   | GIf c th el => regroups c || regroups_block th ||
                    match el with GNoElse => false | GElse b => regroups_block b end
   | GWhile c b => (if is_true_lit c then false else regroups c) || regroups_block b
@@ -296,3 +374,22 @@ with regroups_block (b : iblock) : bool :=
   | GNil => false
   | GCons s r => regroups_stmt s || regroups_block r
   end.
+
+(* ---------------------------------------------------------------- function items *)
+
+Fixpoint emit_params (ps : list ident) : list tt :=
+  match ps with
+  | [] => []
+  | [p] => [T (TId p); T TColon; T TI64]
+  | p :: r => T (TId p) :: T TColon :: T TI64 :: T TComma :: emit_params r
+  end.
+
+Definition emit_fn (d : ifn) : list tt :=
+  T (TKw KFn) :: T (TFn (iname d)) :: G Paren (emit_params (iparams d)) ::
+  (if iret d then [T TArrow; T TI64] else []) ++ [G Brace (emit_block (ibody d))].
+
+Definition emit_fns (l : list ifn) : list tt := flat_map emit_fn l.
+
+Definition tree_of_fn (d : ifn) : rfn :=
+  {| rname := iname d; rparams := iparams d; rret := iret d; rbody := tree_of_block (ibody d) |}.
+Definition tree_of_fns (l : list ifn) : rprog := map tree_of_fn l.
